@@ -1,3 +1,258 @@
-import DnsModel.Renamer
+/-
+  C06 — Compression keeps the message, stays valid and never grows the packet.
+  For every accepted packet whose names are all written without pointers (`PointerFree`; the output
+  of decompression is one, C05):
+  * `compress_spec`: compression succeeds; the result is no longer than the input, satisfies the
+    acceptance policy, has the same 12 header bytes, and has a layout whose question and records are,
+    one by one and in order, those of the input up to the case of names — every name the library
+    understands decodes (under the validator's pointer discipline) to labels equal up to ASCII case,
+    the type/class/TTL bytes and all other data (OPT and its options included) are identical.
+  Every pointer written designates, in the output, a name equal up to case to the suffix it stands
+  for: that is what `ValidName` of the result with `lsCi` labels says.
+-/
+import DnsModel.Lemmas.CompressRun
+import DnsModel.Lemmas.PlainBridge
+import DnsModel.Theorems.C05
 namespace Dns.C06
+open Dns Res
+
+/-- every name of the packet the library understands is written out in full -/
+structure PointerFree (u : Bytes) (L : C03.Layout u) : Prop where
+  q : ∃ ls, PlainAt u 12 ls ∧ L.qe = 12 + (labSum ls + 1)
+  recs : ∀ r ∈ L.answers ++ L.authority ++ L.additional, PlainRec u r
+
+theorem dictInv_empty (out : Bytes) : DictInv {} out := by
+  refine ⟨by simp, by decide, by decide, by decide, ?_⟩
+  intro i e hi
+  simp at hi
+
+private theorem section_fold {pp : PP} {sec : Section} {l : List RecPos} {off e : Nat} {ob oe : Bool}
+    (hl : RRsL pp.packet sec l off ob e oe) (hlen : l.length < 65536) (hp : ∀ r ∈ l, PlainRec pp.packet r)
+    (step : PP → Cursor → Res (Option Cursor))
+    (hwalk : ∃ cs, collectWalk pp step (l.length + 1) (Cursor.new sec) = .ok cs ∧ cs.map posOf = l.map some)
+    (dict : SuffixDict) (out : Bytes) (hinv : DictInv dict out) :
+    ∃ (dict' : SuffixDict) (em : Bytes),
+      walkFold pp step (compressItem pp true) sectionFuel (Cursor.new sec) (dict, out) = .ok (dict', out ++ em) ∧
+      em.length ≤ e - off ∧ DictInv dict' (out ++ em) ∧
+      ∀ tl : Bytes, ∃ l', RRsL (out ++ em ++ tl) sec l' out.length ob (out.length + em.length) oe ∧
+        RunCi pp.packet (out ++ em ++ tl) l l' ∧
+        l'.map (fun r => get16 (out ++ em ++ tl) r.ne) = l.map (fun r => get16 pp.packet r.ne) := by
+  obtain ⟨cs, hcs, hpos⟩ := hwalk
+  have hm := collectWalk_mono _ _ _ hcs (sectionFuel - (l.length + 1))
+  have e : l.length + 1 + (sectionFuel - (l.length + 1)) = sectionFuel := by unfold sectionFuel; omega
+  rw [e] at hm
+  rw [walkFold_collect _ _ _ _ hm]
+  exact fold_compress hl hp cs hpos dict out hinv
+
+/-- **compression of a pointer-free accepted packet** -/
+theorem compress_spec {u : Bytes} {v : View} (h : parse u = .ok v) (L : C03.Layout u) (hpf : PointerFree u L) :
+    ∃ c, compress u = .ok c ∧ c.length ≤ u.length ∧ WF c ∧ c.take 12 = u.take 12 ∧
+      (c.drop 12).take (L.qe + 4 - 12) = (u.drop 12).take (L.qe + 4 - 12) ∧
+      ∃ L' : C03.Layout c,
+        (∃ ls ls', ValidName u 12 ls L.qe ∧ ValidName c 12 ls' L'.qe ∧ lsCi ls' ls ∧
+          (c.drop L'.qe).take 4 = (u.drop L.qe).take 4) ∧
+        RunCi u c L.answers L'.answers ∧ RunCi u c L.authority L'.authority ∧
+        RunCi u c L.additional L'.additional := by
+  obtain ⟨L0, hl, v1, v2, v3, v4, hno, _⟩ := C03.layout_full h
+  obtain ⟨eq0, ea0, en0, er0⟩ := C05.layout_unique L0 L
+  rw [eq0, ea0] at v2
+  rw [en0] at v3
+  rw [er0] at v4
+  rw [ea0, en0] at hno
+  have hwf := C02.accepted_wf u v h
+  obtain ⟨_, hqd, qeW, hneW, _, hclW, hqr, _⟩ := hwf
+  have hqeW : qeW = L.qe := nameEnds_functional hneW L.hq.1
+  subst hqeW
+  have he2 : L0.e2 = L.e2 := by
+    have := L0.ha; rw [eq0] at this
+    exact (this.functional L.ha (by rw [L0.na, L.na])).2
+  have he3 : L0.e3 = L.e3 := by
+    have := L0.hn; rw [he2] at this
+    exact (this.functional L.hn (by rw [L0.nn, L.nn])).2
+  rw [he2] at v3
+  rw [he3] at v4
+  have ia : secInfo (PP.ofView u v) .answer = .ok (L.answers.length, if L.answers.length > 0 then some (L.qe + 4) else none) := by
+    simp [secInfo, PP.ofView, ancount, (be16_ok_of_le (p := u) (i := 6) (by omega)).1, L.na, v2]
+  have inn : secInfo (PP.ofView u v) .nameServers = .ok (L.authority.length, if L.authority.length > 0 then some L.e2 else none) := by
+    simp [secInfo, PP.ofView, nscount, (be16_ok_of_le (p := u) (i := 8) (by omega)).1, L.nn, v3]
+  have ir : secInfo (PP.ofView u v) .additional = .ok (L.additional.length, if L.additional.length > 0 then some L.e3 else none) := by
+    simp [secInfo, PP.ofView, arcount, (be16_ok_of_le (p := u) (i := 10) (by omega)).1, L.nr, v4]
+  have wa := walk_skip (pp := PP.ofView u v) L.ha ia
+  have wn := walk_skip (pp := PP.ofView u v) L.hn inn
+  have wr := walk_incl (pp := PP.ofView u v) L.hr ir
+  have ea : nonOpt u L.answers = L.answers := nonOpt_eq_self (fun r hr => hno r (by simp [hr]))
+  have en : nonOpt u L.authority = L.authority := nonOpt_eq_self (fun r hr => hno r (by simp [hr]))
+  simp only [PP.ofView] at wa wn
+  rw [ea] at wa
+  rw [en] at wn
+  -- the question
+  obtain ⟨qe', hqe', hqw⟩ := C03.question_walk h
+  have hqe : qe' = L.qe := nameEnds_functional hqe' L.hq.1
+  subst hqe
+  have hqm := collectWalk_mono _ _ _ hqw (sectionFuel - 2)
+  have e2 : 2 + (sectionFuel - 2) = sectionFuel := by unfold sectionFuel; omega
+  rw [e2] at hqm
+  obtain ⟨qls, hpq, hqeq⟩ := hpf.q
+  have hlt6 := get16_lt u 6
+  have hlt8 := get16_lt u 8
+  have hlt10 := get16_lt u 10
+  have hH : (u.take 12).length = 12 := by simp; omega
+  obtain ⟨d1, qem, qls', hq, hqle, hqpos, hqci, hdq, hqval⟩ := compress_question (pp := PP.ofView u v)
+    (by simpa [PP.ofView] using hpq) hqeq (by simpa [PP.ofView] using L.hq.2) {} (u.take 12) (dictInv_empty _)
+  simp only [PP.ofView] at hq hdq hqval
+  obtain ⟨d2, ema, fa, hla, hda, halla⟩ := section_fold (pp := PP.ofView u v) L.ha (by rw [L.na]; exact hlt6)
+    (fun r hr => hpf.recs r (by simp [hr])) nextSkippingOpt wa d1 (u.take 12 ++ (qem ++ (u.drop L.qe).take 4)) hdq
+  obtain ⟨d3, emn, fn, hln, hdn, halln⟩ := section_fold (pp := PP.ofView u v) L.hn (by rw [L.nn]; exact hlt8)
+    (fun r hr => hpf.recs r (by simp [hr])) nextSkippingOpt wn d2 _ hda
+  obtain ⟨d4, emr, fr, hlr, hdr, hallr⟩ := section_fold (pp := PP.ofView u v) L.hr (by rw [L.nr]; exact hlt10)
+    (fun r hr => hpf.recs r (by simp [hr])) nextIncludingOpt wr d3 _ hdn
+  simp only [PP.ofView] at fa fn fr halla halln hallr
+  have hq4 : ((u.drop L.qe).take 4).length = 4 := length_take_drop L.hq.2
+  generalize hc : u.take 12 ++ (qem ++ (u.drop L.qe).take 4) ++ ema ++ emn ++ emr = c
+  have hrun : compress u = .ok c := by
+    unfold compress
+    have hlen12 : ¬ (u.length < 12) := by omega
+    simp only [failIf, DNS_HEADER_SIZE, hlen12, decide_false, Bool.false_eq_true, if_false, bind_ok,
+      slice_ok (p := u) (a := 0) (b := 12) ⟨by omega, by omega⟩, parsePP, h, pure_eq, List.drop_zero, Nat.sub_zero]
+    rw [walkFold_collect _ _ _ _ hqm]
+    simp only [foldRes, PP.ofView]
+    rw [hq]
+    simp only [Res.bind, bind_ok]
+    rw [fa]
+    simp only [bind_ok]
+    rw [fn]
+    simp only [bind_ok]
+    rw [fr]
+    simp only [bind_ok, hc]
+  -- shape of the output
+  obtain ⟨⟨lsu, hvu⟩, _⟩ := L.hq
+  obtain ⟨b1, _⟩ := L.ha.bounds
+  obtain ⟨b2, _⟩ := L.hn.bounds
+  obtain ⟨b3, _⟩ := L.hr.bounds
+  have hqgt : 12 < L.qe := hvu.2.1.lt
+  have hclen : c.length = 12 + (qem.length + 4) + ema.length + emn.length + emr.length := by
+    rw [← hc]; simp only [List.length_append, hH, hq4]
+  -- header agreement
+  have hagH : Agree u c 0 0 12 := by
+    have := agree_of_eq (p := u) (u := c) (A := []) (B := (qem ++ (u.drop L.qe).take 4) ++ ema ++ emn ++ emr) (a := 0) (n := 12)
+      (by rw [← hc]; simp) (by omega)
+    simpa using this
+  have hg16 : ∀ i, i + 2 ≤ 12 → get16 c i = get16 u i := by
+    intro i hi
+    have := hagH.get16 (i := i) hi
+    simpa using this
+  -- question in c
+  have hvq : ValidName c 12 qls' (12 + qem.length) := by
+    have := hqval (ema ++ emn ++ emr)
+    rw [hH] at this
+    have e : u.take 12 ++ (qem ++ (u.drop L.qe).take 4) ++ (ema ++ emn ++ emr) = c := by rw [← hc]; simp
+    rw [e] at this; exact this
+  have hA : (u.take 12 ++ qem).length = 12 + qem.length := by rw [List.length_append, hH]
+  have hagQ : Agree u c L.qe (12 + qem.length) 4 := by
+    have := agree_of_eq (p := u) (u := c) (A := u.take 12 ++ qem) (B := ema ++ emn ++ emr)
+      (a := L.qe) (n := 4) (by rw [← hc]; simp) (by omega)
+    rw [hA] at this; exact this
+  have hclass : get16 c (12 + qem.length + 2) = 1 := by rw [hagQ.get16 (i := 2) (by omega)]; exact hclW
+  have hwinQ : (c.drop (12 + qem.length)).take 4 = (u.drop L.qe).take 4 := by
+    have := window_eq (u := c) (A := u.take 12 ++ qem) (w := (u.drop L.qe).take 4) (B := ema ++ emn ++ emr)
+      (by rw [← hc]; simp)
+    rw [hA, hq4] at this; exact this
+  -- sections in c
+  have hpre1 : (u.take 12 ++ (qem ++ (u.drop L.qe).take 4)).length = 12 + qem.length + 4 := by
+    simp only [List.length_append, hH, hq4]; omega
+  obtain ⟨la', rla, cla, tla⟩ := halla (emn ++ emr)
+  have eu1 : u.take 12 ++ (qem ++ (u.drop L.qe).take 4) ++ ema ++ (emn ++ emr) = c := by rw [← hc]; simp
+  rw [eu1] at rla cla tla
+  rw [hpre1] at rla
+  obtain ⟨ln', rln, cln, tln⟩ := halln emr
+  rw [hc] at rln cln tln
+  have hpre2 : (u.take 12 ++ (qem ++ (u.drop L.qe).take 4) ++ ema).length = 12 + qem.length + 4 + ema.length := by
+    rw [List.length_append, hpre1]
+  rw [hpre2] at rln
+  obtain ⟨lr', rlr, clr, tlr⟩ := hallr []
+  have eu3 : u.take 12 ++ (qem ++ (u.drop L.qe).take 4) ++ ema ++ emn ++ emr ++ [] = c := by rw [← hc]; simp
+  rw [eu3] at rlr clr tlr
+  have hpre3 : (u.take 12 ++ (qem ++ (u.drop L.qe).take 4) ++ ema ++ emn).length =
+      12 + qem.length + 4 + ema.length + emn.length := by rw [List.length_append, hpre2]
+  rw [hpre3] at rlr
+  have hend : 12 + qem.length + 4 + ema.length + emn.length + emr.length = c.length := by rw [hclen]; omega
+  rw [hend] at rlr
+  have c6 : la'.length = get16 c 6 := by rw [cla.length, L.na, hg16 6 (by omega)]
+  have c8 : ln'.length = get16 c 8 := by rw [cln.length, L.nn, hg16 8 (by omega)]
+  have c10 : lr'.length = get16 c 10 := by rw [clr.length, L.nr, hg16 10 (by omega)]
+  have hqeu : L.qe = 12 + (labSum qls + 1) := hqeq
+  have hqlit : qem = encLabels qls ++ [0] := compress_question_first (pp := PP.ofView u v)
+    (by simpa [PP.ofView] using hpq) hqeq (by simpa [PP.ofView] using L.hq.2) (u.take 12) (by simpa [PP.ofView] using hq)
+  refine ⟨c, hrun, ?_, ?_, ?_, ?_, ?_⟩
+  · -- never longer
+    rw [hclen]; omega
+  · refine ⟨by omega, by rw [hg16 4 (by omega)]; exact hqd, 12 + qem.length, ⟨qls', hvq⟩, by omega, hclass, ?_,
+      12 + qem.length + 4 + ema.length, L.o2, 12 + qem.length + 4 + ema.length + emn.length, L.o3, L.o4, ?_, ?_, ?_⟩
+    · rw [hg16 2 (by omega), hg16 6 (by omega), hg16 8 (by omega)]; exact hqr
+    · rw [← c6]; exact rla.to_RRs
+    · rw [← c8]; exact rln.to_RRs
+    · rw [← c10]; exact rlr.to_RRs
+  · rw [← hc]
+    simp only [List.append_assoc]
+    rw [List.take_append_of_le_length (by omega), List.take_of_length_le (by omega)]
+  · -- the question is byte-identical
+    have hqm : qem.length = labSum qls + 1 := by rw [hqlit, encLen_eq]
+    have hspan : L.qe + 4 - 12 = (labSum qls + 1) + 4 := by omega
+    have hwc := window_eq (u := c) (A := u.take 12) (w := qem ++ (u.drop L.qe).take 4) (B := ema ++ emn ++ emr)
+      (by rw [← hc]; simp)
+    rw [hH, List.length_append, hq4, hqm] at hwc
+    have hR : (u.drop 12).take ((labSum qls + 1) + 4) = (encLabels qls ++ [0]) ++ (u.drop L.qe).take 4 := by
+      rw [take_split, hpq.1, List.drop_drop]
+      have : 12 + (labSum qls + 1) = L.qe := by omega
+      rw [this]
+    rw [hspan, hwc, hR, hqlit]
+  · refine ⟨⟨12 + qem.length, la', ln', lr', _, _, _, _, _, ⟨⟨qls', hvq⟩, by omega⟩, rla, rln, rlr, c6, c8, c10⟩,
+      ⟨qls, qls', ?_, hvq, hqci, hwinQ⟩, cla, cln, clr⟩
+    have := hpq.valid
+    rw [hqeu]; simpa [Nat.add_assoc] using this
+
+end Dns.C06
+
+namespace Dns.C06
+open Dns Res
+
+/-- **the hypothesis is what decompression delivers**: the output of decompression (C05) is a
+pointer-free packet in the sense used here, so compression applies to it -/
+theorem decompressed_pointerFree {p : Bytes} {v : View} (h : parse p = .ok v) {L : C03.Layout p} (o : C05.Output p L) :
+    ∃ L' : C03.Layout o.bytes, PointerFree o.bytes L' := by
+  obtain ⟨_, L', hq', _, _, _, _, _, _, _, _, _, hself⟩ := C05.output_layout h o
+  refine ⟨L', ?_, ?_⟩
+  · obtain ⟨ls, hv, hqc⟩ := hq'
+    have hl : 12 ≤ p.length := (C02.accepted_wf p v h).1
+    have hH : (p.take 12).length = 12 := by simp; omega
+    have hwin : (o.bytes.drop 12).take (o.qc.length) = (encLabels ls ++ [0]) ++ (o.bytes.drop L'.qe).take 4 := by
+      have := window_eq (u := o.bytes) (A := p.take 12) (w := o.qc) (B := o.pa.flatten ++ o.pn.flatten ++ o.pr.flatten)
+        (by simp [C05.Output.bytes])
+      rw [hH] at this
+      rw [this]; exact hqc
+    have hp : PlainAt o.bytes 12 ls := plainAt_of_window hwin (Or.inr (validName_ok hv))
+    exact ⟨ls, hp, by have := (validName_functional hv hp.valid).2; omega⟩
+  · intro r hr
+    have hs := hself r hr
+    simp only [List.mem_append] at hr
+    rcases hr with (hr | hr) | hr
+    · obtain ⟨ob, oa, hpos⟩ := RRsL.mem_pos L'.ha r hr
+      exact plainRec_of_selfCanon hpos hs
+    · obtain ⟨ob, oa, hpos⟩ := RRsL.mem_pos L'.hn r hr
+      exact plainRec_of_selfCanon hpos hs
+    · obtain ⟨ob, oa, hpos⟩ := RRsL.mem_pos L'.hr r hr
+      exact plainRec_of_selfCanon hpos hs
+
+/-- compression of whatever decompression returns -/
+theorem compress_decompressed {p : Bytes} {v : View} (h : parse p = .ok v) {u : Bytes} (hu : uncompress p = .ok u) :
+    ∃ c, compress u = .ok c ∧ c.length ≤ u.length ∧ WF c := by
+  obtain ⟨L, o, ho⟩ := C05.decompress_ok h
+  rw [ho] at hu
+  simp at hu
+  subst hu
+  obtain ⟨L', hpf⟩ := decompressed_pointerFree h o
+  obtain ⟨v', h'⟩ := C02.wf_accepted _ (C05.output_layout h o).1
+  obtain ⟨c, hc, hlen, hwf, _⟩ := compress_spec h' L' hpf
+  exact ⟨c, hc, hlen, hwf⟩
+
 end Dns.C06
